@@ -15,6 +15,21 @@ if [ -z "$ID" ]; then echo "usage: run.sh <ID> <quick|thorough> | run.sh replay 
 TMP="$(mktemp -d "${TMPDIR:-/tmp}/vmon.XXXXXXXX")" || { echo "INCONCLUSIVE cannot create temp dir"; exit 3; }
 trap 'rm -rf "$TMP"' EXIT
 
+# Self-test only (tools/seedcheck.sh): VERIF_REPO=<scratch copy of the repository> builds the monitors
+# against that copy and writes evidence / replay files to VERIF_OUT instead of /verif. The commands
+# registered in MANIFEST.json never set it: they always build from /repo's working tree.
+REPO_DIR="${VERIF_REPO:-/repo}"
+OUT_DIR="$VERIF_DIR"
+MODFLAG=""
+if [ -n "${VERIF_REPO:-}" ]; then
+  OUT_DIR="${VERIF_OUT:-$TMP/out}"
+  mkdir -p "$OUT_DIR"
+  cp "$VERIF_DIR/KNOWN_FINDINGS.txt" "$OUT_DIR/" 2>/dev/null
+  sed "s#=> /repo#=> $REPO_DIR#" "$VERIF_DIR/harness/go.mod" > "$TMP/go.mod"
+  cp "$VERIF_DIR/harness/go.sum" "$TMP/go.sum"
+  MODFLAG="-modfile=$TMP/go.mod"
+fi
+
 RACE=""
 case "$ID" in
   C10|C11|C12) RACE="-race" ;;
@@ -22,7 +37,7 @@ esac
 TAGS="-tags verif"
 
 build() { # $1 = extra flags
-  (cd "$VERIF_DIR/harness" && go build $1 $RACE -o "$TMP/vmon" ./cmd/vmon) >"$TMP/build.log" 2>&1
+  (cd "$VERIF_DIR/harness" && go build $MODFLAG $1 $RACE -o "$TMP/vmon" ./cmd/vmon) >"$TMP/build.log" 2>&1
 }
 HOOKS=on
 if ! build "$TAGS"; then
@@ -42,13 +57,13 @@ fi
 CLI=""
 case "$ID" in
   C06|C07|C19)
-    if ! (cd /repo && go build -o "$TMP/protoc-go-valid" .) >"$TMP/build_cli.log" 2>&1; then
+    if ! (cd "$REPO_DIR" && go build -o "$TMP/protoc-go-valid" .) >"$TMP/build_cli.log" 2>&1; then
       echo "INCONCLUSIVE property=$ID CLI does not build:"; tail -20 "$TMP/build_cli.log"; exit 3
     fi
     CLI="$TMP/protoc-go-valid" ;;
 esac
 
-mkdir -p "$VERIF_DIR/evidence" "$TMP/run"
+mkdir -p "$OUT_DIR/evidence" "$TMP/run"
 export GORACE="halt_on_error=0 log_path=$TMP/run/race"
-"$TMP/vmon" run --prop "$ID" --tier "$TIER" --seed "$SEED" --cli "$CLI" --verif "$VERIF_DIR" --tmp "$TMP/run"
+"$TMP/vmon" run --prop "$ID" --tier "$TIER" --seed "$SEED" --cli "$CLI" --verif "$OUT_DIR" --tmp "$TMP/run"
 exit $?
